@@ -14,7 +14,7 @@ fn quiet() -> Duration {
 }
 
 enum Kind {
-    Down { name: String, b: usize, w: usize, twice: bool },
+    Down { name: String, b: usize, w: usize, twice: bool, jam: bool },
     Up { name: String, b: usize, w: usize, content: Vec<u8>, lossy: bool },
     Intruder { what: String },
     /// sends datagrams (well-formed or not) from its own endpoint to the endpoint that serves client `victim`
@@ -42,6 +42,7 @@ struct Client {
     results: Vec<String>,
     /// lossy upload: the window base for which an acknowledgement has already been 'lost'
     lost_at: Option<usize>,
+    jammed: bool,
     /// download: the tsize value of the server's OACK
     tsize: Option<usize>,
 }
@@ -133,8 +134,8 @@ impl Client {
                 self.result = res;
                 self.done = true;
             }
-            Kind::Down { name, b, w, twice } => {
-                let (b, w, twice) = (*b, *w, *twice);
+            Kind::Down { name, b, w, twice, jam } => {
+                let (b, w, twice, jam) = (*b, *w, *twice, *jam);
                 if !self.started {
                     self.started = true;
                     let mut o = opts(b, w);
@@ -149,6 +150,18 @@ impl Client {
                         self.send(&p, listener);
                     }
                 } else if let Some(to) = self.peer {
+                    if jam && !self.jammed {
+                        // `J`: in the middle of its transfer the endpoint sends requests the server cannot accept (option values out of
+                        // range: they are not even answered) - they start nothing and must not touch the running transfer
+                        self.jammed = true;
+                        for (o, v) in [(OptionType::BlockSize, 7usize), (OptionType::Timeout, 0), (OptionType::Windowsize, 0)] {
+                            let bad = Packet::Rrq { filename: name.clone(), mode: "octet".into(), options: vec![TransferOption { option: o, value: v }] };
+                            self.send(&bad, listener);
+                        }
+                        let badw = Packet::Wrq { filename: "jam-up".into(), mode: "octet".into(), options: vec![TransferOption { option: OptionType::BlockSize, value: 7 }] };
+                        self.send(&badw, listener);
+                        std::thread::sleep(Duration::from_millis(20));
+                    }
                     self.send(&Packet::Ack(((self.expected - 1) % 65536) as u16), to);
                 } else {
                     self.result = "noreply".into();
@@ -326,10 +339,12 @@ pub fn multi_line(toks: &[&str]) -> String {
     fn parse_kind(spec: &str) -> Option<Kind> {
         let p: Vec<&str> = spec.split(':').collect();
         Some(match p.as_slice() {
-            ["d", name, b, w] => Kind::Down { name: name.to_string(), b: b.parse().unwrap_or(512), w: w.parse().unwrap_or(1), twice: false },
+            ["d", name, b, w] => Kind::Down { name: name.to_string(), b: b.parse().unwrap_or(512), w: w.parse().unwrap_or(1), twice: false, jam: false },
+            // `J`: a download whose endpoint sends unacceptable requests in the middle of it
+            ["J", name, b, w] => Kind::Down { name: name.to_string(), b: b.parse().unwrap_or(512), w: w.parse().unwrap_or(1), twice: false, jam: true },
             // `D`: the request datagram is sent twice (timeout=1 negotiated) and the client pauses 1.4 s after its first DATA: the
             // worker started by the first copy gives up while the transfer started by the second is still running
-            ["D", name, b, w] => Kind::Down { name: name.to_string(), b: b.parse().unwrap_or(512), w: w.parse().unwrap_or(1), twice: true },
+            ["D", name, b, w] => Kind::Down { name: name.to_string(), b: b.parse().unwrap_or(512), w: w.parse().unwrap_or(1), twice: true, jam: false },
             ["u", name, b, w, rest @ ..] => {
                 let c = parse_content(&rest.join(":"))?;
                 Kind::Up { name: name.to_string(), b: b.parse().unwrap_or(512), w: w.parse().unwrap_or(1), content: c, lossy: false }
@@ -375,6 +390,7 @@ pub fn multi_line(toks: &[&str]) -> String {
             queue,
             results: vec![],
             lost_at: None,
+            jammed: false,
             tsize: None,
         });
     }
